@@ -320,7 +320,7 @@ def configs(tier):
             for shape in ((2,), (2, 1, 2)):
                 cfgs.append({"type": "composite", "n": n, "nesting": nesting, "shape": list(shape), "timeout": t})
         cfgs.append({"type": "composite", "n": n, "nesting": "flat", "shape": [3], "perm": True, "timeout": t})
-    maxc, maxhw = (4, 2) if tier == "quick" else (6, 4)
+    maxc, maxhw = (4, 4) if tier == "quick" else (6, 4)
     shapes = set()
     for c in range(1, maxc + 1):
         shapes.add((c,))
@@ -330,7 +330,7 @@ def configs(tier):
     for shape in sorted(shapes):
         for split_dim in range(1, len(shape) + 1):
             for n in (1, 2, 3):
-                if int(np.prod(shape)) > (16 if tier == "quick" else 96):
+                if int(np.prod(shape)) > (32 if tier == "quick" else 96):
                     continue
                 cfgs.append({"type": "multiscale", "shape": list(shape), "split_dim": split_dim, "n": n, "timeout": t})
     return cfgs
